@@ -351,6 +351,8 @@ pub async fn run_case(
     // features of the history so far, computed by the harness alone; they go into every finding key so that a
     // failure on a history WITHOUT the feature behind a listed finding is a different, unlisted key
     let (mut f_orphan, mut f_failed, mut f_nonexist, mut f_tampered) = (false, false, false, false);
+    let wire_delivery = seq.len() % 2 == 0 || seq.len() >= 6;
+    emit("H", if wire_delivery { "delivery:wire-form" } else { "delivery:in-memory-object" });
     for (step, (b, honest)) in seq.iter().enumerate() {
         let onp = validates_without_parent(b, &node.cfg).await;
         let op = project(b, *honest, onp, &mut ids);
@@ -359,8 +361,12 @@ pub async fn run_case(
         }
         emit("O", &op);
         let before = snapshot(&node, &mut ids).await;
+        // the block reaches the node the way a peer's block does: through its wire form (nothing the producer computed and
+        // kept in memory — consensus values, caches — travels with it); every second case keeps the in-memory object, which
+        // is how a node receives the blocks it produced itself
         let blk = (*b).clone();
-        let r = match crate::common::guarded_async(node.add_block(blk)).await {
+        let add_res = if wire_delivery { crate::common::guarded_async(node.add_block(blk)).await } else { crate::common::guarded_async(node.add_block_mem(blk)).await };
+        let r = match add_res {
             Ok(r) => r,
             Err(msg) => {
                 // the node panicked inside add_block: its state is no longer meaningful, the case ends here
@@ -857,10 +863,169 @@ pub fn worker(seed: u64, tier: &str, start: usize) {
     writeln!(o, "E\t{}", k).unwrap();
 }
 
+/// The by-height index on its own: the real `BlockRing` against the model's ring functions on op sequences that walk
+/// ACROSS THE RING BOUNDARY (small genesis periods, ids well past 2·gp). The chain cases above never get there (gp = 100).
+/// The sequences are those the chain logic produces: a chain grows block by block (entries older than the ring are
+/// deleted first, as the purge does), side blocks are stored, the top 1..3 blocks are unwound and either wound back or
+/// replaced by stored side blocks, side blocks are deleted. Direct monitor: after unwinding the top j blocks of a chain
+/// that is longer than j the reported tip is the block below them.
+fn ring_suite(out: &mut Out, seed: u64, tier: &str) {
+    use saito_core::core::consensus::blockring::BlockRing;
+    let mut r = Rng::new(seed ^ 0x4149);
+    let nseq = if tier == "thorough" { 400 } else { 60 };
+    for si in 0..nseq {
+        let gp = [2u64, 3, 5][si % 3];
+        let size = 2 * gp;
+        out.setup(&format!("reset {} 0", gp));
+        let mut ring = BlockRing::new(gp);
+        let mut next_hash: u32 = 1;
+        let mut chain: Vec<(u64, u32)> = vec![]; // on-chain, ascending ids
+        let mut side: Vec<(u64, u32)> = vec![];
+        let hash_of = |n: u32| -> SaitoHash {
+            let mut h = [0u8; 32];
+            h[..4].copy_from_slice(&n.to_be_bytes());
+            h[31] = 1;
+            h
+        };
+        let num_of = |h: &SaitoHash| -> u32 { u32::from_be_bytes([h[0], h[1], h[2], h[3]]) };
+        let mut hist: Vec<String> = vec![];
+        let steps = r.range(3 * size, 6 * size);
+        // one op on both sides; returns the implementation's (tip id, tip hash)
+        let mut apply = |ring: &mut BlockRing, out: &mut Out, hist: &mut Vec<String>, cmd: &str, id: u64, h: u32, live_max: u64| -> Option<(u64, u32)> {
+            let op = format!("ring {} {} {}", cmd, id, h);
+            let res = crate::common::guarded(std::panic::AssertUnwindSafe(|| {
+                match cmd {
+                    "add" => {
+                        let mut b = Block::new();
+                        b.id = id;
+                        b.hash = hash_of(h);
+                        ring.add_block(&b);
+                        ring.empty = false;
+                    }
+                    "on" => {
+                        ring.on_chain_reorganization(id, hash_of(h), true);
+                    }
+                    "off" => {
+                        ring.on_chain_reorganization(id, hash_of(h), false);
+                    }
+                    _ => ring.delete_block(id, hash_of(h)),
+                }
+                let tip = (ring.get_latest_block_id(), num_of(&ring.get_latest_block_hash()));
+                let mut lc = vec![];
+                for k in 0..(live_max + size + 2) {
+                    if let Some(x) = ring.get_longest_chain_block_hash_at_block_id(k) {
+                        lc.push(format!("{}:{}", k, num_of(&x)));
+                    }
+                }
+                (tip, lc)
+            }));
+            hist.push(op.clone());
+            match res {
+                Ok((tip, lc)) => {
+                    out.case(&op, &format!("tip={}:{} lc=[{}]", tip.0, tip.1, lc.join(",")));
+                    Some(tip)
+                }
+                Err(_) => {
+                    out.case(&op, "tip=panic lc=[]");
+                    None
+                }
+            }
+        };
+        for _ in 0..steps {
+            let live_max = |chain: &Vec<(u64, u32)>, side: &Vec<(u64, u32)>| chain.iter().chain(side.iter()).map(|x| x.0).max().unwrap_or(0);
+            let tip_id = chain.last().map(|x| x.0).unwrap_or(0);
+            let pick = r.below(10);
+            if pick < 5 || chain.len() < 2 {
+                // grow the chain by one block; entries that would share its slot are deleted first
+                let id = tip_id + 1;
+                let old: Vec<(u64, u32)> = chain.iter().chain(side.iter()).filter(|x| x.0 + size <= id).cloned().collect();
+                for (oi, oh) in old {
+                    chain.retain(|x| *x != (oi, oh));
+                    side.retain(|x| *x != (oi, oh));
+                    let lm = live_max(&chain, &side).max(oi);
+                    apply(&mut ring, out, &mut hist, "del", oi, oh, lm);
+                }
+                let h = next_hash;
+                next_hash += 1;
+                chain.push((id, h));
+                let lm = live_max(&chain, &side);
+                apply(&mut ring, out, &mut hist, "add", id, h, lm);
+                apply(&mut ring, out, &mut hist, "on", id, h, lm);
+                out.count("ring:grow");
+            } else if pick < 7 {
+                // a side block at one of the top three heights
+                let id = tip_id - r.below(3.min(tip_id));
+                if id == 0 {
+                    continue;
+                }
+                let h = next_hash;
+                next_hash += 1;
+                side.push((id, h));
+                let lm = live_max(&chain, &side);
+                apply(&mut ring, out, &mut hist, "add", id, h, lm);
+                out.count("ring:side");
+            } else if pick < 9 {
+                // unwind the top j blocks; then wind the same blocks back, or replace them by stored side blocks
+                let j = (1 + r.below(3)) as usize;
+                if chain.len() <= j {
+                    continue;
+                }
+                let top: Vec<(u64, u32)> = chain[chain.len() - j..].to_vec();
+                let lm = live_max(&chain, &side);
+                let mut last_tip = None;
+                for (id, h) in top.iter().rev() {
+                    last_tip = apply(&mut ring, out, &mut hist, "off", *id, *h, lm);
+                }
+                let below = chain[chain.len() - j - 1];
+                if let Some(t) = last_tip {
+                    if t != below {
+                        let what = format!("after unwinding the top {} blocks the index reports tip {:?}; the block below them is {:?}", j, t, below);
+                        let rj = serde_json::json!({"suite": "chain", "ring_ops": hist.clone(), "gp": gp});
+                        for p in ["C03", "C04", "C05"] {
+                            out.monitor_fail(&format!("{}/by-height-index/tip-after-unwind-is-not-the-block-below", p), &what, rj.clone());
+                        }
+                    }
+                }
+                out.count(&format!("ring:unwind:{}{}", j, if top.iter().any(|x| x.0 % size == 0) { ":across-slot-0" } else { "" }));
+                // replacement: side blocks at exactly those heights (one per height), else the same blocks
+                let mut repl: Vec<(u64, u32)> = vec![];
+                for (id, _) in top.iter() {
+                    if let Some(s) = side.iter().find(|s| s.0 == *id) {
+                        repl.push(*s);
+                    }
+                }
+                let use_side = repl.len() == j && r.coin(1, 2);
+                let wind: Vec<(u64, u32)> = if use_side { repl.clone() } else { top.clone() };
+                if use_side {
+                    for t in top.iter() {
+                        side.push(*t);
+                    }
+                    side.retain(|s| !repl.contains(s));
+                    let n = chain.len();
+                    chain.truncate(n - j);
+                    chain.extend(repl.iter().cloned());
+                    out.count("ring:reorg-to-side-blocks");
+                }
+                for (id, h) in wind.iter() {
+                    apply(&mut ring, out, &mut hist, "on", *id, *h, lm);
+                }
+            } else {
+                // delete a side block
+                if let Some(s) = side.pop() {
+                    let lm = live_max(&chain, &side).max(s.0);
+                    apply(&mut ring, out, &mut hist, "del", s.0, s.1, lm);
+                    out.count("ring:delete-side");
+                }
+            }
+        }
+    }
+}
+
 /// parent: spawns workers, turns silence into `stall`, writes ops/impl/stats
 pub fn run(seed: u64, tier: &str, outdir: &str) {
     let mut out = Out::new(outdir);
     out.setup(&format!("flags {}", calibrate()));
+    ring_suite(&mut out, seed, tier);
     let exe = std::env::current_exe().unwrap();
     let mut start = 0usize;
     let mut stalls = 0;
